@@ -73,6 +73,17 @@ pub struct Scenario {
     /// dropped: 0 = no, 1 = pop, 2 = remove(0), 3 = swap_remove(0), 4 = drain(..1), 5 = split_off(1)
     #[serde(default)]
     pub move_out: u8,
+    /// a second vector of the same openings in which one opening (not the first) has another number of
+    /// blinding factors is handed to the witness constructor, which must refuse it and release it clean:
+    /// 0 = no, 1 = last opening one factor short, 2 = opening 1 one factor short, 3 = last opening with
+    /// one factor more
+    #[serde(default)]
+    pub rejected_witness: u8,
+    /// the recovering batch gets one more, LAST member that the verifier refuses on structural grounds after
+    /// the masks of the earlier members were recovered: 0 = no, 1 = one folding round too many, 2 = an
+    /// undecodable point in the first round, 3 = a proof for another extension degree
+    #[serde(default)]
+    pub malformed_last: u8,
 }
 
 pub struct C20;
@@ -241,6 +252,27 @@ fn life_cycle(sc: &Scenario, st: &mut RunStats) -> Vec<Violation> {
         drop(scratch);
         drop(scratch_w);
     }
+    if sc.rejected_witness > 0 && cfg.m >= 2 && (cfg.ext >= 2 || sc.rejected_witness == 3) {
+        let odd = if sc.rejected_witness == 2 { 1 } else { cfg.m - 1 };
+        let mut ragged = Vec::with_capacity(cfg.m);
+        for j in 0..cfg.m {
+            let n = if j != odd {
+                cfg.ext
+            } else if sc.rejected_witness == 3 {
+                cfg.ext + 1
+            } else {
+                cfg.ext - 1
+            };
+            let mut r = Vec::with_capacity(n);
+            for k in 0..n {
+                r.push(secrets_blind[j][k.min(cfg.ext - 1)]);
+            }
+            ragged.push(CommitmentOpening::new(sc.wit.values[j], r));
+        }
+        if RangeWitness::init(ragged).is_err() {
+            st.probe("witness_constructor_refused_ragged_openings");
+        }
+    }
     if sc.move_out > 0 && cfg.m >= 2 {
         // the vector's buffer holds the values inline; a moved-out slot keeps a stale image that only a
         // wipe of the whole capacity removes
@@ -306,8 +338,10 @@ fn life_cycle(sc: &Scenario, st: &mut RunStats) -> Vec<Violation> {
     // one recovering verify_batch call over the primary proof and the seeded companions
     let mut batch_objects = None;
     if let (Some(p), true) = (&proof, n_comp > 0) {
-        let mut sts: Vec<RangeStatement<G>> = Vec::with_capacity(n_comp + 1);
-        let mut prs = Vec::with_capacity(n_comp + 1);
+        // (room for the primary and for a refused last member: a reallocation of this harness vector would
+        // release a block holding the statements' inline seeds)
+        let mut sts: Vec<RangeStatement<G>> = Vec::with_capacity(n_comp + 2);
+        let mut prs = Vec::with_capacity(n_comp + 2);
         let mut wits = Vec::with_capacity(n_comp);
         let mut ok = true;
         for c in 0..n_comp {
@@ -340,8 +374,39 @@ fn life_cycle(sc: &Scenario, st: &mut RunStats) -> Vec<Violation> {
             } else {
                 action
             };
+            if sc.malformed_last > 0 {
+                if let Some(mut parts) = ProofParts::of::<G>(&prs[if pos == 0 { 1 } else { 0 }]) {
+                    match sc.malformed_last {
+                        1 => {
+                            let extra = parts.lr.first().copied().unwrap_or((parts.a, parts.a1));
+                            parts.lr.push(extra);
+                        },
+                        2 if !parts.lr.is_empty() => parts.lr[0].0 = [0xff; 32],
+                        _ => {
+                            if parts.ext_tag < 6 {
+                                parts.ext_tag += 1;
+                                parts.d1.push([0u8; 32]);
+                            } else {
+                                parts.ext_tag -= 1;
+                                parts.d1.pop();
+                            }
+                        },
+                    }
+                    if let Ok(bad) = G::from_bytes(&parts.to_bytes()) {
+                        // the refused member carries no seed of its own
+                        let s = RangeStatement::init(comp_params.clone(), vec![comp_commitments[0].clone()], vec![None], None)
+                            .expect("statement");
+                        sts.push(s);
+                        prs.push(bad);
+                        ctxs.push(&comp_ctx);
+                    }
+                }
+            }
             paint_stack(&NEUTRAL_STACK);
             let r = verify::<G>(&ctxs, &sts, &prs, a);
+            if sc.malformed_last > 0 && matches!(r, Ok(Err(_))) {
+                st.fault("verifier_refuses_a_later_member_with_masks_recovered");
+            }
             if let Ok(Ok(m)) = &r {
                 if m.iter().filter(|x| x.is_some()).count() >= 2 {
                     st.probe("several_masks_recovered_in_one_batch");
@@ -533,7 +598,7 @@ impl Check for C20 {
     }
 
     fn rule(&self) -> String {
-        "enumeration of (configuration, seed present?, crash point) where crash points are: none, the prover's error return after the witness was absorbed, and a panic of the external RNG at each of its 3+rounds call sites; each lattice point is executed several times with seeded values, drop orders, clone choices, clone_from targets, openings moved out of a witness clone before its drop, and recovery modes; one evaluation = one heap block freed while armed and scanned for the registered secret images (+1 per inline-seed check); non-trivial = a crash point or error path actually fired; distinct = distinct event-log hashes. Executed twice: library at opt-level 0 (heap behaviour as the source states it) and at release.".into()
+        "enumeration of (configuration, seed present?, crash point) where crash points are: none, the prover's error return after the witness was absorbed, and a panic of the external RNG at each of its 3+rounds call sites; each lattice point is executed several times with seeded values, drop orders, clone choices, clone_from targets, openings moved out of a witness clone before its drop, ragged openings refused by the witness constructor, a structurally refused last member of a recovering batch, and recovery modes; one evaluation = one heap block freed while armed and scanned for the registered secret images (+1 per inline-seed check); non-trivial = a crash point or error path actually fired; distinct = distinct event-log hashes. Executed twice: library at opt-level 0 (heap behaviour as the source states it) and at release.".into()
     }
 
     fn assumptions(&self) -> Vec<String> {
@@ -582,7 +647,7 @@ impl Check for C20 {
             blind_seed: rng.next_u64(),
             seed_nonce: if with_seed { Some(rng.next_u64()) } else { None },
             zero_blind: vec![],
-            same_as_prev: vec![],
+            same_as_prev: vec![], same_as_first: vec![],
             special_blind: None,
         };
         let mut drop_order: Vec<usize> = (0..6).collect();
@@ -606,6 +671,8 @@ impl Check for C20 {
             primary_position: rng.usize_below(4),
             use_clone_from: rng.chance(1, 2),
             move_out: if cfg.m >= 2 && rng.chance(2, 3) { 1 + rng.below(5) as u8 } else { 0 },
+            rejected_witness: if cfg.m >= 2 && rng.chance(2, 3) { 1 + rng.below(3) as u8 } else { 0 },
+            malformed_last: if rng.chance(1, 2) { 1 + rng.below(3) as u8 } else { 0 },
         }
     }
 
@@ -689,6 +756,8 @@ impl Check for C20 {
             "bit_image_registered",
             "clone_from_exercised",
             "opening_moved_out_before_drop",
+            "witness_constructor_refused_ragged_openings",
+            "verifier_refuses_a_later_member_with_masks_recovered",
             "error_return_commitment_mismatch",
             "verifier_error_return_with_masks_live",
         ]
